@@ -94,6 +94,9 @@ Section AnyCarrier.
     ADevice_cost (fobj_of g) s p = leaf_cost d s p /\
     ADevice_deriv (fobj_of g) s p = leaf_deriv d s p.
   Proof. cbv zeta. repeat split. Qed.
+  (* DemandFunction: the inner polynomial at the largest entry; its derivative placed at the arg max *)
+  Lemma gen_demand c x : DemandFunction_call c x = feval (FDemand c) x /\ DemandFunction_deriv c x = fderiv (FDemand c) x.
+  Proof. split; reflexivity. Qed.
   (* CDevice2: the preference object assembled from InnerSumFunction / RangesFunction objects *)
   Lemma ranges_fobj_call (rf : list (nat * nat * fobj A)) x :
     f_call (ranges_fobj rf) x = vsum (map (fun r => f_call (snd r) (slice (fst (fst r)) (snd (fst r)) x)) rf).
